@@ -632,6 +632,10 @@ func (hp *HTTPProxy) isLocalhost(host string) bool {
 }
 
 func (hp *HTTPProxy) setBasicAuth(req *http.Request) error {
+	if req.Method == http.MethodConnect {
+		// CONNECT headers are read by the upstream proxy, not by the site.
+		return nil
+	}
 	if req.Header.Get("Authorization") == "" {
 		if u := hp.creds.MatchURL(req.URL); u != nil {
 			p, _ := u.Password()
